@@ -44,12 +44,21 @@ def run(tier, rep, ev):
     for label, raw, pw, regions in archives:
         names0, data0 = damage.pristine_map(py7zr, raw, pw)
         targets = [[names0[-1]], [names0[0]]] if names0 else [[]]
-        cases.append((raw, pw, names0, data0, targets))
+        multi = "1folders" not in label
+        cases.append((raw, pw, names0, data0, targets, False))
         meta.append({"e": "img", "archive": label, "region": "none", "damage": "intact", "what": "", "intact": True})
+        if multi:
+            cases.append((raw, pw, names0, data0, targets, True))
+            meta.append({"e": "img", "archive": label, "region": "none", "damage": "intact", "what": "by name", "intact": True})
         for kind, what, img, off in damage.damages(raw, regions, R, tier):
-            cases.append((img, pw, names0, data0, targets))
-            meta.append({"e": "img", "archive": label, "region": damage.region_at(regions, off) if kind != "extend" else "trailing",
-                         "damage": kind, "what": what, "intact": False})
+            region = damage.region_at(regions, off) if kind != "extend" else "trailing"
+            # multi-folder archives: opened by file name as well (worker threads, one per folder); every other image in quick
+            modes = [False]
+            if multi:
+                modes = [True, False] if tier != "quick" else [len(cases) % 2 == 1]
+            for bypath in modes:
+                cases.append((img, pw, names0, data0, targets, bypath))
+                meta.append({"e": "img", "archive": label, "region": region, "damage": kind, "what": what + (" (by name)" if bypath else ""), "intact": False})
     outs = sandbox.run_cases(damage.probe, cases, timeout=30, nproc=16, slice_size=40, mem=2 << 30, max_hangs=40)
     traces, origins = [], []
     cov = {}
